@@ -13,17 +13,18 @@ VARIANTS = {"quick": ["O1"], "thorough": ["O1", "asan"]}
 AXIOMS_ALLOWED = runner.REAL_AXIOMS
 REQUIRED_THEOREMS = ["C18_exp_unit", "C18_log_exp", "C18_log_exp_error_bound", "C18_true_bound_exceeds_2e_4", "C18_bound_2e_4_refuted", "C18_exp_log",
                      "C18_double_cover", "C18_log_norm_le_pi", "C18_sum_unit", "C18_diff_sum", "C18_left_convention",
-                     "C18_mean_negation_invariant", "C18_mean_permutation_invariant", "C18_mean_unit", "C18_mean_all_equal",
-                     "C18_mean_symmetric_centre_is_eigenvector", "C18_mean_symmetric_partial"]
-RULE = ("cases from one seeded stream: conversions on batches of 1..6 unit quaternions (uniform on S^3, within 3e-4 rad of the identity densely "
+                     "C18_exp_log_neg", "C18_exp_log_pm", "C18_right_convention_differs",
+                     "C18_mean_negation_invariant", "C18_mean_permutation_invariant", "C18_mean_all_equal",
+                     "C18_mean_symmetric_centre_is_eigenvector", "C18_mean_symmetric_gap", "C18_mean_symmetric", "C18_mean_symmetric_partial"]
+RULE = ("cases from one seeded stream: conversions on batches of 0..6 unit quaternions (and, for correspondence only, quaternions of norm 1 +- 1e-8) (uniform on S^3, within 3e-4 rad of the identity densely "
         "around both cut-offs, within 1e-6 of a half turn incl. real part exactly 0, the basis quaternions) and rotation vectors (norm in [0, pi), "
         "around the cut-offs 1e-4 and 2 asin(1e-4), pi - 1e-6..pi, zero, (pi, 2 pi)); sum/difference round trips with the same flavours; "
-        "weighted means of 1..7 quaternions (clustered, all +-q, symmetric unscented sets, uniform), positive and unscented weights, random sign "
+        "weighted means of 1..30 quaternions (clustered, all +-q, symmetric unscented sets, uniform), positive and unscented weights, random sign "
         "flips and permutations, eigen-gap >= 1e-6; non-trivial = every case; distinct by (kind, batch, q flavour, r flavour / weight flavour)")
 TRUSTED_BASE = ["Coq 8.16.1 kernel (coqc); the four real-number axioms of Coq's Reals",
                 "Coq stdlib Reals (sqrt, cos, sin, acos, asin, PI)",
                 "extraction (ExtrOcamlBasic only) and ocaml/float_ops.ml (libm), ocaml/drv_C18.ml (incl. a Jacobi eigen-iteration as the eigen-solver oracle of the executable model), ocaml/caseio.ml",
-                "cpp/h_C18.cpp harness; tolerance 1e-9 outside the cut-off zones, 2e-4 + 1e-9 inside, 1e-9 + 1e-13 * |M| / eigen-gap for means",
+                "cpp/h_C18.cpp harness (every template instantiated with MatrixXd, Block and Ref<const MatrixXd> arguments, results required bit-identical); tolerance 1e-9 outside the cut-off zones, 2e-4 + 1e-9 inside, 1e-9 + 1e-13 * |M| / eigen-gap for means",
                 "correspondence is sampled: agreement is established on the generated cases only",
                 "IEEE rounding is not modelled (theorems over R)"]
 ASSUMPTIONS = ["eigen-solver contract (premise of the mean theorems, checked on every mean case for Eigen::EigenSolver and for the driver's Jacobi iteration): "
@@ -118,20 +119,37 @@ QF = ["uniform", "uniform", "near_identity", "near_identity", "half_turn", "axis
 RF = ["uniform", "uniform", "near_cutoff", "near_cutoff", "near_pi", "zero", "beyond_pi"]
 
 
+def stack(cols, rows):
+    return np.stack(cols, axis=1) if cols else np.zeros((rows, 0))
+
+
+def off_unit(rng, q):
+    """norm 1 +- 1e-8: outside the property (unit quaternions); compared with the model only."""
+    return q * (1.0 + rng.choice([-1.0, 1.0]) * rng.uniform(1e-9, 1e-8))
+
+
+def width(rng):
+    return 0 if rng.random() < 0.06 else rng.randint(1, 6)
+
+
 def gen_conv(rng, k):
-    nq, nr = rng.randint(1, 6), rng.randint(1, 6)
+    nq, nr = width(rng), width(rng)
     qf, rf = rng.choice(QF), rng.choice(RF)
-    q = np.stack([gen_quat(rng, qf) for _ in range(nq)], axis=1)
-    r = np.stack([gen_rv(rng, rf) for _ in range(nr)], axis=1)
-    c = caseio.Case(k, "conv", {"batch": max(nq, nr), "qf": qf, "rf": rf})
-    return c.mat("q", q).mat("r", r)
+    offunit = rng.random() < 0.1
+    q = stack([off_unit(rng, gen_quat(rng, qf)) if offunit else gen_quat(rng, qf) for _ in range(nq)], 4)
+    r = stack([gen_rv(rng, rf) for _ in range(nr)], 3)
+    c = caseio.Case(k, "conv", {"batch": max(nq, nr), "qf": qf, "rf": rf, "offunit": int(offunit)})
+    return c.mat_shape("q", 4, nq, q).mat_shape("r", 3, nr, r)
 
 
 def gen_sumdiff(rng, k):
-    n, m = rng.randint(1, 6), rng.randint(1, 6)
+    n, m = width(rng), width(rng)
     qf, rf = rng.choice(QF), rng.choice(RF)
+    offunit = rng.random() < 0.1
     q0 = gen_quat(rng, qf)
-    r = np.stack([gen_rv(rng, rf) for _ in range(n)], axis=1)
+    if offunit:
+        q0 = off_unit(rng, q0)
+    r = stack([gen_rv(rng, rf) for _ in range(n)], 3)
     cols = []
     for _ in range(m):
         ch = rng.random()
@@ -140,8 +158,8 @@ def gen_sumdiff(rng, k):
         else:   # a known rotation away from q0 (near it, near -q0, near the half turn)
             d = gen_rv(rng, rng.choice(["near_cutoff", "near_pi", "uniform"]))
             cols.append(qmul(qexp_exact(d), q0) * rng.choice([1.0, -1.0]))
-    c = caseio.Case(k, "sumdiff", {"batch": max(n, m), "qf": qf, "rf": rf})
-    return c.mat("q0", q0.reshape(4, 1)).mat("r", r).mat("ql", np.stack(cols, axis=1))
+    c = caseio.Case(k, "sumdiff", {"batch": max(n, m), "qf": qf, "rf": rf, "offunit": int(offunit)})
+    return c.mat("q0", q0.reshape(4, 1)).mat_shape("r", 3, n, r).mat_shape("ql", 4, m, stack(cols, 4))
 
 
 def unscented_weights(n, alpha, kappa):
@@ -156,10 +174,11 @@ def gen_mean(rng, k):
         flavour = rng.choice(["cluster", "cluster", "all_equal", "symmetric", "uniform"])
         wkind = rng.choice(["positive", "unscented"])
         qc = gen_quat(rng, rng.choice(["uniform", "uniform", "half_turn", "axis"]))
+        large = rng.random() < 0.25
         if flavour == "symmetric" or wkind == "unscented":
-            n = rng.randint(1, 3); N = 2 * n + 1
+            n = rng.randint(4, 14) if large else rng.randint(1, 3); N = 2 * n + 1
         else:
-            N = rng.randint(1, 6)
+            N = rng.randint(7, 30) if large else rng.randint(1, 6)
         if wkind == "positive":
             w = np.array([rng.random() + 0.05 for _ in range(N)]); w /= w.sum()
             if flavour == "symmetric":
@@ -173,7 +192,7 @@ def gen_mean(rng, k):
         elif flavour == "all_equal":
             q = np.stack([qc for _ in range(N)], axis=1)
         elif flavour == "symmetric":
-            ds = [rand_unit(rng, 3) * rng.uniform(0.01, 0.6) * math.sqrt(min(cfac, 3.0)) for _ in range(n)]
+            ds = [rand_unit(rng, 3) * rng.uniform(0.01, 0.6) * math.sqrt(min(cfac, 3.0)) / math.sqrt(max(1.0, n / 3.0)) for _ in range(n)]
             q = np.stack([qc] + [qmul(qexp_exact(d), qc) for d in ds] + [qmul(qexp_exact(-d), qc) for d in ds], axis=1)
         else:
             q = np.stack([gen_quat(rng, "uniform") for _ in range(N)], axis=1)
@@ -329,6 +348,10 @@ def oracle(c, impl, model):
             return [("C18:conv:shape", "missing output or wrong shape")]
         if impl.get("inputs_unchanged") != 1:
             v.append(("C18:conv:inputs-modified", "an argument was modified"))
+        if impl.get("via_equal") != 1:
+            v.append(("C18:conv:block-or-ref-arguments", "result differs when the arguments are Block expressions / Ref<const MatrixXd>"))
+        if int(c.meta.get("offunit", 0)):
+            return v            # non-unit quaternions: outside the property, correspondence only
         for j in range(r.shape[1]):
             n = float(np.linalg.norm(r[:, j]))
             if abs(np.linalg.norm(er[:, j]) - 1.0) > 1e-12:
@@ -375,6 +398,10 @@ def oracle(c, impl, model):
         s, ds, d = impl.get("sum"), impl.get("diff_sum"), impl.get("diff")
         if s is None or ds is None or d is None or s.shape != (4, r.shape[1]) or ds.shape != r.shape or d.shape != (3, ql.shape[1]):
             return [("C18:sumdiff:shape", "missing output or wrong shape")]
+        if impl.get("via_equal") != 1:
+            v.append(("C18:sumdiff:block-or-ref-arguments", "result differs when the arguments are Block expressions / Ref<const MatrixXd>"))
+        if int(c.meta.get("offunit", 0)):
+            return v            # non-unit quaternions: outside the property, correspondence only
         for j in range(r.shape[1]):
             n = float(np.linalg.norm(r[:, j]))
             if abs(np.linalg.norm(s[:, j]) - 1.0) > 1e-12 * 4:
@@ -422,6 +449,8 @@ def oracle(c, impl, model):
     m = m.ravel()
     cond, scale = float(c.meta["cond"]), float(c.meta["scale"])
     tol = 1e-9 + 1e-13 * cond
+    if impl.get("via_equal") != 1:
+        v.append(("C18:mean:block-or-ref-arguments", "result differs when the arguments are Block expressions / Ref<const MatrixXd>"))
     if not np.all(np.isfinite(m)):
         return [("C18:mean:not-finite", "%s" % m)]
     if abs(np.linalg.norm(m) - 1.0) > 1e-9:
@@ -443,7 +472,8 @@ def oracle(c, impl, model):
     qc = c.get("qc").ravel()
     if c.meta["flavour"] == "all_equal" and up_to_sign(m, qc) > tol:
         v.append(("C18:mean:all-equal", "mean %s for inputs +-%s" % (m, qc)))
-    if c.meta["flavour"] == "symmetric" and int(c.meta["centre_dominant"]) == 1 and up_to_sign(m, qc) > tol:
+    # positive weights: dominance is a theorem (C18_mean_symmetric: offsets within a quarter turn); otherwise only when the centre is dominant
+    if c.meta["flavour"] == "symmetric" and (c.meta["weights"] == "positive" or int(c.meta["centre_dominant"]) == 1) and up_to_sign(m, qc) > tol:
         v.append(("C18:mean:symmetric-centre", "mean %s for centre %s" % (m, qc)))
     return v
 
@@ -464,10 +494,14 @@ def histogram(cases):
 
 LEVEL_TEXT = ("Proof: the model of quaternion_to_rotation_vector / rotation_vector_to_quaternion / sum / diff / mean (with the code's 1e-4 cut-offs and sign branch) "
               "is proved over Coq's reals: exp is unit; log(exp r) = r for 2 asin(1e-4) < |r| <= pi and off by at most 2 asin(1e-4) otherwise; exp(log q) = q for unit q "
-              "with non-negative real part outside the cut-off; q and -q have the same logarithm (opposite half turns when the real part is 0) of norm <= pi; "
+              "with non-negative real part outside the cut-off (-q for negative real part); q and -q have the same logarithm (opposite half turns when the real part is 0) of norm <= pi; "
               "diff(sum(q, r), q) = log(exp r); left convention pinned; the mean (eigen-solver as an oracle with its contract as premise) is invariant under sign flips and "
-              "permutations, is +-q for inputs +-q, and the centre of a symmetric set is an eigenvector (dominant under an eigen-gap premise). Tied to the code by running the "
+              "permutations, is +-q for inputs +-q, and the centre of a symmetric set is an eigenvector, the mean being +- the centre for non-negative weights and offsets within a quarter turn (eigen-gap derived; premise otherwise). Tied to the code by running the "
               "extracted model and the library on the same generated cases.")
 LEVEL_NOTE = ("Trusted: Coq kernel + 4 real-number axioms, extraction + float driver (libm, Jacobi iteration as executable eigen-oracle), harness and tolerances; rounding not modelled. "
-              "Partial: dominance of the centre of a symmetric set is proved under an explicit eigen-gap premise (C18_mean_symmetric_partial). "
-              "The proved cut-off error bound is 2 asin(1e-4) = 2e-4 + 3.4e-13, marginally above the property's 2e-4. The tie to the code is sampled.")
+              "Run-time only (not theorems): that the value mean_quaternion returns is a unit vector and an eigenvector of the largest eigenvalue is the eigen-solver contract — "
+              "a premise of the mean theorems, checked on every generated mean case for Eigen::EigenSolver and for the driver's Jacobi iteration; behaviour on non-unit quaternions "
+              "(norm 1 +- 1e-8) is compared with the model only. "
+              "Partial: for a negative central weight (unscented sets) or offsets beyond a quarter turn, dominance of the centre of a symmetric set is a premise (C18_mean_symmetric_partial); "
+              "for non-negative weights it is derived (C18_mean_symmetric). "
+              "The proved cut-off error bound is 2 asin(1e-4) = 2e-4 + 3.4e-13, marginally above the property's 2e-4 (C18_bound_2e_4_refuted). The tie to the code is sampled.")
